@@ -3,7 +3,7 @@
 From Coq Require Import List Arith NArith ZArith Bool String.
 From Coq.Strings Require Import Byte.
 From Peppi Require Import Base.Bytes Base.Outcome Gen.Funs Model.Ubjson Model.Start Model.Parse Model.Reader Model.Writer Model.Recorder
-  Proofs.TableFacts Proofs.ReadProof Proofs.Corollaries Proofs.Examples.
+  Proofs.TableFacts Proofs.ReadProof Proofs.Corollaries Proofs.C10Proof Proofs.Examples.
 Import ListNotations.
 
 (* for EVERY finished well-formed replay (any version, gecko blocks or not, single or doubled Game End, metadata
@@ -25,6 +25,19 @@ Theorem C10_skip_equals_full : forall r st h h',
     f_ids (g_frames gs) = [].
 Proof. exact c10_skip_vs_full. Qed.
 
+(* "the result can itself be written out and re-read": writing the skip-frames result gives the canonical stream of
+   the frame-less replay (same start, one Game End, same metadata), which reads back -- skipping or not -- to the same
+   start, end, metadata and empty frame set, and re-writes to the same bytes *)
+Theorem C10_skip_result_writable : forall r st h,
+  wf_replay r = true -> game_start (r_start r) = ROk st -> finished r = true ->
+  let gs := game_of {| o_skip := true; o_hash := h |} r st (end_of r) in
+  slp_read {| o_skip := true; o_hash := h |} (emit r) = Ok (gs, []) /\
+  slp_write gs = Ok (emit (skipped r)) /\
+  (forall sk, exists g2, slp_read {| o_skip := sk; o_hash := h |} (emit (skipped r)) = Ok (g2, []) /\
+      g_start g2 = g_start gs /\ g_end g2 = g_end gs /\ g_meta g2 = g_meta gs /\ g_frames g2 = g_frames gs /\
+      g_gecko g2 = g_gecko gs /\ g_quirk g2 = g_quirk gs /\ slp_write g2 = Ok (emit (skipped r))).
+Proof. exact c10_skip_result_writable. Qed.
+
 Theorem C10_nonvacuous :
   (wf_replay ex_r37 = true /\ res_is_ok (game_start (r_start ex_r37)) = true /\ finished ex_r37 = true) /\
   (wf_replay ex_r10 = true /\ res_is_ok (game_start (r_start ex_r10)) = true /\ finished ex_r10 = true).
@@ -32,4 +45,5 @@ Proof. exact (conj ex_r37_wf ex_r10_wf). Qed.
 
 Print Assumptions C10_skip_read.
 Print Assumptions C10_skip_equals_full.
+Print Assumptions C10_skip_result_writable.
 Print Assumptions C10_nonvacuous.
